@@ -2,7 +2,7 @@
 from props import funcs_common as FC
 from gens.programs import Opts
 
-THEOREMS = []
+THEOREMS = ['infinite_iff_no_derivation', 'infinite_iff_no_derivation_any_universe', 'verdict_mode_independent', 'finite_reports_whole_body', 'finite_has_valid_choice', 'first_choice_is_a_derivation', 'funcOk_from_syntax']
 RULE = ('generated functions biased towards failing loops (one failing loop, several loops that fail jointly, nested '
         'failing loops, a second loop after a failing one) x {early stop, run to completion}; verdict of the real '
         'Analysis.func compared with "no choice vector at which Spec.sem derives a matrix" (Lean predicate), the two '
@@ -24,6 +24,12 @@ TEMPLATES = [
     'int f(int n,int x,int y){ int i; for (i=0;i<n;i++){ x = x * y; } }',
     'int f(int n,int x,int y){ int i; for (i=0;i<n;i++){ x = y + y; y = x; } }',
     'int f(int n,int x,int y,int z){ int i; for (i=0;i<n;i++){ while (z<2) { x = x + y; } } while (y<1) { y = x + z; } }',
+    # a counted loop with a branch, nested in a while loop, followed by more statements: the set of
+    # failing delta paths shares deltas between paths (exercises simplify / build_choices together)
+    'int f(int a,int b,int c,int d,int n){ int i; while (a<10) { for (i=0;i<n;i++) { b = a + a; if (c) { c = b - a; } else { d = c + b; } } c = a + a; } d = d * c; }',
+    'int f(int a,int b,int c,int d,int n){ int i; while (a<10) { for (i=0;i<n;i++) { b = a + c; if (c) { c = b + a; } else { d = c + b; } } c = a + b; } d = d + c; }',
+    'int f(int a,int b,int c,int d,int n){ int i; while (a<10) { for (i=0;i<n;i++) { if (c) { c = b - a; } else { d = c + b; } b = a + a; } d = a + a; } c = d * c; }',
+    'int f(int a,int b,int c,int n,int m){ int i; int j; for (i=0;i<n;i++) { for (j=0;j<m;j++) { b = a + a; if (c) { c = b + a; } } c = a + b; } b = b * c; }',
 ]
 
 
